@@ -313,6 +313,20 @@ func structuralMutants(seed p7seed, attacker *keys.Key, attackerCertRaw, attacke
 		s := t.signer(0)
 		s.sig.Prim = bytes.Repeat([]byte{0x5a}, len(s.sig.Prim))
 		emit("signature-replaced", "", t)
+		// the genuine signature value in a longer or shorter octet string (leading zero octets
+		// added, or a leading zero dropped): not a PKCS#1 v1.5 signature of the modulus length
+		for _, z := range []int{1, 2, 8} {
+			tz := base.clone()
+			sz := tz.signer(0)
+			sz.sig.Prim = append(make([]byte, z), sz.sig.Prim...)
+			emit(fmt.Sprintf("signature-leading-zeros-%d", z), "", tz)
+		}
+		{
+			tz := base.clone()
+			sz := tz.signer(0)
+			sz.sig.Prim = append(append([]byte(nil), sz.sig.Prim...), 0)
+			emit("signature-trailing-zero", "", tz)
+		}
 		if sp.attrs != nil {
 			t2 := base.clone()
 			s2 := t2.signer(0)
@@ -404,6 +418,23 @@ func structuralMutants(seed p7seed, attacker *keys.Key, attackerCertRaw, attacke
 		}
 		s.si.Kids = kids
 		emit("attributes-removed", "", t)
+		// … and the attribute bytes (as they were signed: a SET) moved into the blob as pkcs7-data
+		// content, so that the old signature is a valid signature "over the content"
+		{
+			t3 := t.clone()
+			set := append([]byte(nil), refder.TLV(0x31, attrsContent(sp.attrs))...)
+			t3.encap.Kids[0].Prim = refp7.OIDData
+			wrap := &refder.Tree{Tag: 0xA0, Kids: []*refder.Tree{{Tag: 0x04, Prim: set}}}
+			if len(t3.encap.Kids) > 1 {
+				t3.encap.Kids[1] = wrap
+			} else {
+				t3.encap.Kids = append(t3.encap.Kids, wrap)
+			}
+			emit("attributes-removed+moved-into-content", "", t3)
+			t4 := t3.clone()
+			t4.encap.Kids[1].Kids[0] = &refder.Tree{Tag: 0x31, Kids: base.clone().signer(0).attrs.Kids}
+			emit("attributes-removed+moved-into-content-as-SET", "", t4)
+		}
 		// empty attribute set
 		t2 := base.clone()
 		t2.signer(0).attrs.Kids = []*refder.Tree{}
